@@ -116,7 +116,11 @@ func c13One(c *mc.Ctx, fields []ref.Field, desc string) {
 	}
 	c.Distinct(enc)
 	pi := mc.Try(func() {
-		tree, err := unknownfields.ConvertUnknownFields(enc)
+		in := append([]byte{}, enc...)
+		tree, err := unknownfields.ConvertUnknownFields(in)
+		for i := range in { // the caller reuses its buffer: the tree must not alias it
+			in[i] = 0xEE
+		}
 		if err != nil {
 			bad("convert-error", "ConvertUnknownFields failed on well-formed fields: %v", err)
 			return
